@@ -13,7 +13,7 @@ import ast
 import os
 import typing as t
 
-REPO_SRC = os.environ.get("VERIF_REPO_SRC", "/repo/src/dpapi_ng")
+REPO_SRC = os.environ.get("VERIF_REPO_SRC", os.path.join(os.environ.get("VERIF_REPO", "/repo"), "src", "dpapi_ng"))
 HERE = os.path.dirname(os.path.abspath(__file__))
 COQ = os.path.join(os.path.dirname(HERE), "coq")
 
